@@ -283,12 +283,35 @@ func (s *c11) Build(w *World) {
 	}
 	// the handler's own stream interface: all messages written to one stream with ToNet,
 	// read back one by one with FromNet from a reader that hands out drawn fragment sizes
-	if len(s.msgs) > 0 {
+	// the size dimension: in 1 run of 25 (from the tape's digest) the stream also carries one message with a block
+	// that brings the frame close to, but not over, the receiver's frame limit (network.MessageSizeMax, 4 MiB)
+	streamMsgs := s.msgs
+	if d := t.Digest(); d%25 == 0 {
+		size := []int{2<<20 - 200, 2 << 20, 3 << 20, 4<<20 - 4096}[(d>>8)%4]
+		data := bytes.Repeat([]byte{byte(d >> 16)}, size)
+		blk, _ := blocks.NewBlockWithCid(data, mustRawCid(data))
+		id := ReqID("big")
+		big := gsmsg.NewMessage(nil, map[graphsync.RequestID]gsmsg.GraphSyncResponse{id: gsmsg.NewResponse(id, graphsync.PartialResponse, []gsmsg.GraphSyncLinkMetadatum{{Link: blk.Cid(), Action: graphsync.LinkActionPresent}})}, map[cid.Cid]blocks.Block{blk.Cid(): blk})
+		streamMsgs = append(append([]gsmsg.GraphSyncMessage(nil), s.msgs...), big)
+		w.Probe("c11-frame-near-the-size-limit")
+	}
+	if len(streamMsgs) > 0 {
+		saved := s.msgs
+		s.msgs = streamMsgs
+		defer func() { s.msgs = saved }()
 		h := gsmsgv2.NewMessageHandler()
 		var buf bytes.Buffer
 		for i, m := range s.msgs {
-			if err := h.ToNet(s.r.ID, m, &buf); err != nil {
-				s.viol = &Violation{Property: "C11", Rule: "R1", Signature: "well-formed-message-unencodable", Detail: fmt.Sprintf("message %d: %v", i, err)}
+			err := func() (err error) {
+				defer func() {
+					if r := recover(); r != nil {
+						err = fmt.Errorf("ToNet panicked: %v", r)
+					}
+				}()
+				return h.ToNet(s.r.ID, m, &buf)
+			}()
+			if err != nil {
+				s.viol = &Violation{Property: "C11", Rule: "R1", Signature: "well-formed-message-unencodable", Detail: fmt.Sprintf("message %d (%d blocks): %v", i, len(m.Blocks()), err)}
 			}
 		}
 		rd := &chunkReader{data: buf.Bytes(), sizes: []int{1 + t.Draw(7), 1 + t.Draw(64), 1 + t.Draw(4096)}}
@@ -394,4 +417,13 @@ func (s *c11) Final(w *World) *Violation {
 		}
 	}
 	return nil
+}
+
+// mustRawCid is the CIDv1 (raw, sha2-256) of the data.
+func mustRawCid(data []byte) cid.Cid {
+	c, err := cid.Prefix{Version: 1, Codec: cid.Raw, MhType: 0x12, MhLength: -1}.Sum(data)
+	if err != nil {
+		panic(err)
+	}
+	return c
 }
